@@ -12,7 +12,6 @@ package c09
 
 import (
 	"bytes"
-	"context"
 	"encoding/json"
 	"fmt"
 	"math/rand"
@@ -21,7 +20,6 @@ import (
 	"strings"
 
 	"github.com/emersion/go-webdav/carddav"
-	"github.com/emersion/go-webdav/verifharness/davx"
 	"github.com/emersion/go-webdav/verifharness/doubles"
 	"github.com/emersion/go-webdav/verifharness/fw"
 	"github.com/emersion/go-webdav/verifharness/rfc6352"
@@ -254,135 +252,6 @@ func pathsClass(paths []string) string {
 	}
 	sort.Strings(l)
 	return "n=" + bucket(len(paths)) + "|" + strings.Join(l, ",")
-}
-
-type cwWitness struct {
-	Case       *cwCase             `json:"case"`
-	Sent       bool                `json:"sent"`
-	Method     string              `json:"method,omitempty"`
-	Target     string              `json:"target,omitempty"`
-	Depth      string              `json:"depth,omitempty"`
-	Body       string              `json:"body,omitempty"`
-	ClientErr  string              `json:"client_err,omitempty"`
-	Violations []rfc6352.Violation `json:"violations,omitempty"`
-	Deltas     []delta             `json:"deltas,omitempty"`
-	Note       string              `json:"note,omitempty"`
-}
-
-func execCW(c *fw.Ctx, cs *cwCase) {
-	cs.Dir = dirCW
-	c.Journal(cs)
-	defer c.JournalDone()
-	cp := &doubles.Capture{}
-	var callErr error
-	panicked, pv, stack := fw.Guard(func() {
-		cl, err := carddav.NewClient(cp, "http://h/base/")
-		if err != nil {
-			callErr = err
-			return
-		}
-		if cs.Op == "query" {
-			_, callErr = cl.QueryAddressBook(context.Background(), cs.Book, cs.Query)
-		} else {
-			_, callErr = cl.MultiGetAddressBook(context.Background(), cs.Book, cs.MultiGet)
-		}
-	})
-	c.Eval(1)
-	if panicked {
-		c.Report("panic|"+fw.PanicSite(stack), fmt.Sprintf("carddav client panicked: %v", pv), cs)
-		return
-	}
-	ex := cp.Last()
-	w := &cwWitness{Case: cs, Sent: ex != nil, ClientErr: fw.ErrString(callErr)}
-	if ok, why := inDomain(cs); !ok {
-		// outside the public type's domain: refusing and sending verbatim
-		// are both accepted
-		beh := "sent"
-		if ex == nil {
-			beh = "refused"
-		}
-		c.Observe("client out-of-domain (don't-care)", why+" → "+beh, 1)
-		return
-	}
-	report := func(field, trans, what string) {
-		c.Report(dirCW+" | "+field+" | "+trans, what, w)
-	}
-	if ex == nil {
-		c.Observe("client→wire outcome", cs.Op+": nothing sent", 1)
-		report(cs.Op, "not-sent", fmt.Sprintf("the client sent nothing for an expressible %s: %v", cs.Op, callErr))
-		return
-	}
-	w.Method, w.Target, w.Depth, w.Body = ex.Method, ex.Target, ex.Header.Get("Depth"), string(ex.Body)
-	c.Observe("client→wire request line", fmt.Sprintf("%s %s Depth=%q Content-Type=%q", cs.Op, ex.Method, w.Depth, ex.Header.Get("Content-Type")), 1)
-	if callErr != nil {
-		c.Observe("client→wire outcome", cs.Op+": sent, then client error", 1)
-	} else {
-		c.Observe("client→wire outcome", cs.Op+": sent", 1)
-	}
-	if ex.Method != "REPORT" {
-		report("method", "altered", fmt.Sprintf("method %q, want REPORT", ex.Method))
-	}
-	if p, err := davx.HrefPath(ex.Target); err != nil || p != cs.Book {
-		report("request-target", "altered", fmt.Sprintf("request target %q denotes %q (%v), want %q", ex.Target, p, err, cs.Book))
-	}
-	if cs.Op == "query" && w.Depth != "1" && w.Depth != "infinity" {
-		// RFC 6352 8.6: without Depth the query applies to the collection
-		// resource only (Depth 0).
-		report("depth", "not-1-or-infinity", fmt.Sprintf("Depth %q on an addressbook-query", w.Depth))
-	}
-	if ct := strings.ToLower(ex.Header.Get("Content-Type")); !(strings.HasPrefix(ct, "application/xml") || strings.HasPrefix(ct, "text/xml")) {
-		report("content-type", "not-xml", fmt.Sprintf("Content-Type %q", ex.Header.Get("Content-Type")))
-	}
-	req, viol, err := rfc6352.Read(ex.Body)
-	if err != nil {
-		report("body", "unreadable", "independent reader cannot read the body: "+err.Error())
-		return
-	}
-	w.Violations = viol
-	for _, v := range viol {
-		c.Report(dirCW+" | "+v.Key(), "the document departs from the RFC 6352 grammar: "+v.String(), w)
-	}
-	switch cs.Op {
-	case "query":
-		if req.Query == nil {
-			report("root", "altered", "addressbook-multiget sent for a query")
-			return
-		}
-		want, got := libQuery(cs.Query), wireQuery(req.Query)
-		c.Distinct(dirCW + "|query|" + classOf(&want))
-		c.Observe("client→wire limit", limitClass(cs.Query.Limit)+" → "+limitWire(req.Query), 1)
-		ds := diffQuery(&want, &got)
-		w.Deltas = ds
-		for _, d := range ds {
-			report(d.Field, d.Trans, "the wire document does not denote the caller's query: "+d.Field+" "+d.Detail)
-		}
-		if c.WantSample() && len(cs.Query.PropFilters) >= 2 && len(ds) == 0 {
-			c.Sample(w)
-		}
-	case "multiget":
-		if req.MultiGet == nil {
-			report("root", "altered", "addressbook-query sent for a multiget")
-			return
-		}
-		got, err := req.MultiGet.Paths()
-		if err != nil {
-			report("href", "undecodable", err.Error())
-			return
-		}
-		want := cs.MultiGet.Paths
-		if len(want) == 0 {
-			// documented: no path given → the collection itself is named
-			want = []string{cs.Book}
-			c.Observe("client→wire multiget", "empty Paths → href of the collection", 1)
-		}
-		c.Distinct(dirCW + "|multiget|" + pathsClass(cs.MultiGet.Paths) + "|" + selClass(libSel(&cs.MultiGet.DataRequest)))
-		d := &differ{l: diffPaths("href", want, got)}
-		d.selDiff(libSel(&cs.MultiGet.DataRequest), wireSel(&req.MultiGet.Sel))
-		w.Deltas = d.l
-		for _, x := range d.l {
-			report(x.Field, x.Trans, "the wire document does not denote the caller's multiget: "+x.Field+" "+x.Detail)
-		}
-	}
 }
 
 func selClass(s *nSel) string {
@@ -926,23 +795,31 @@ func run(c *fw.Ctx) {
 			continue
 		}
 		r := c.Rand("cw", i)
-		book := genBook(r)
-		if r.Intn(4) == 0 {
-			mg := &carddav.AddressBookMultiGet{Paths: genPaths(r, book, 0), DataRequest: toLibData(&rfc6352.Selection{Data: genAddressData(r, false)})}
-			if r.Intn(10) == 0 {
-				mg.DataRequest.AllProp = true // AllProp together with Props
-			}
-			execCW(c, &cwCase{Op: "multiget", Book: book, MultiGet: mg})
-			c.Observe("universe", "client→wire random multiget", 1)
-		} else {
-			q, limit := genQuery(r, false)
-			lq := toLibQuery(q, limit)
-			if r.Intn(10) == 0 {
-				lq.DataRequest.AllProp = true
-			}
-			execCW(c, &cwCase{Op: "query", Book: book, Query: lq})
-			c.Observe("universe", "client→wire random query", 1)
+		cs := genCWCase(r, genBook(r), r.Intn(4) == 0)
+		execCW(c, cs)
+		c.Observe("universe", "client→wire random "+cs.Op, 1)
+	}
+	// (5) one request value reused for successive calls on different collections.
+	for j, m := 0, c.Pick(2000, 40000); j < m; j++ {
+		i, mine := next()
+		if !mine {
+			continue
 		}
+		execReuse(c, genReuse(c.Rand("reuse", i)))
+		c.Observe("universe", "client→wire reuse groups (2-3 calls each)", 1)
+	}
+	// (6) K calls in flight through one client, bodies read after all arrived.
+	for j, m := 0, c.Pick(1500, 30000); j < m; j++ {
+		i, mine := next()
+		if !mine {
+			continue
+		}
+		procs := 1
+		if j%2 == 1 {
+			procs = 4
+		}
+		execOverlap(c, genOverlap(c.Rand("overlap", i), procs))
+		c.Observe("universe", "client→wire overlap groups (2-8 calls each)", 1)
 	}
 	for j := 0; j < n; j++ {
 		i, mine := next()
@@ -982,9 +859,32 @@ func replay(c *fw.Ctx, w json.RawMessage) {
 		raw = probe.Case
 	}
 	var d struct {
-		Dir string `json:"dir"`
+		Dir    string `json:"dir"`
+		Family string `json:"family"`
 	}
 	json.Unmarshal(raw, &d)
+	switch {
+	case d.Family == "reuse":
+		var rc reuseCase
+		if json.Unmarshal(raw, &rc) == nil {
+			execReuse(c, &rc)
+		}
+		return
+	case d.Family == "overlap":
+		var oc overlapCase
+		if json.Unmarshal(raw, &oc) == nil {
+			// pool and scheduler effects need repetitions to show again
+			for i := 0; i < 200; i++ {
+				cp := oc
+				cp.Calls = nil
+				for _, cs := range oc.Calls {
+					cp.Calls = append(cp.Calls, cs.clone())
+				}
+				execOverlap(c, &cp)
+			}
+		}
+		return
+	}
 	switch d.Dir {
 	case dirCW:
 		var cs cwCase
@@ -1006,6 +906,7 @@ func init() {
 		Replay: replay,
 		Rule: "client→wire: carddav.Client.QueryAddressBook/MultiGetAddressBook against a capturing HTTP client; the independent rfc6352 reader must accept the body (namespaces, names, child order, enumerations, positive nresults) and decode the caller's request (defaults normalised). " +
 			"wire→backend: the independent rfc6352 writer + xmltree.Render(FullLex) produce conformant documents served by the real carddav.Handler; the recording backend must receive the denoted request; invalid enumeration values must be answered 4xx without a backend query. " +
+			"Around every client call the caller's argument is deep-compared (slices up to capacity, marked spare elements): it must be unchanged. Reuse family: one request value passed to 2-3 successive calls on different collections, each captured request checked against the pristine value on that call's collection. Overlap family: 2-8 goroutines call through one client whose HTTP client parks all requests until everyone arrived, then reads the bodies in a seeded order (GOMAXPROCS 1 and 4); each body must denote its own caller's request; reuse/overlap findings are reported only when the same call alone is clean. " +
 			"Generators: 0-4 prop-filters x 0-3 text-matches x 0-2 param-filters, all flags, hostile names/texts, limits -1/0/1/2/large, prop selections, href lists 0-20 with hostile names. " +
 			"distinct_nontrivial counts abstract classes: direction, operation, filter test, #prop-filters, max #text-matches, max #param-filters, flag set (is-not-defined, negate, non-default test/match type, blank-edged/metacharacter/non-ASCII names and texts), limit class, selection class; for multiget: href count bucket and hostile character classes.",
 		Assumptions: []string{
